@@ -102,6 +102,8 @@ fn kind_of(ty: u8, form: Form) -> (Form, Kind) {
   }
 }
 
+/// spin iterations a reader adds between two resolutions while a writer queues for the lock
+const BACKOFF: u32 = 400;
 const WAIT_BOUND: Duration = Duration::from_millis(4);
 /// a case whose threads are still busy after this long is abandoned as inconclusive
 const CASE_BOUND: Duration = Duration::from_secs(20);
@@ -146,6 +148,12 @@ struct Rt {
   reads_done: AtomicU64,
   per_reader: Vec<AtomicU64>,
   stop: AtomicBool,
+  /// a writer is inside `add_*` and not inside the teardown of the replaced registration: it
+  /// is (or will be) queueing for the map's write lock.  dashmap's shard lock prefers readers,
+  /// so readers resolving back to back can keep a writer out for seconds (liveness of
+  /// registration is not part of the property): while this is set the readers idle longer
+  /// between two resolutions.  They never stop resolving.
+  want_lock: AtomicU32,
   fail: Mutex<Option<Failure>>,
   /// registrations during which a reader resolution provably lay inside a drop (gate 1)
   gate_raced: AtomicU64,
@@ -188,6 +196,9 @@ impl Drop for GateHandle {
       return;
     }
     let rt = &g.rt;
+    // the registering thread is past the write lock for the moment: readers at full speed
+    let w = rt.want_lock.swap(0, SeqCst);
+    let _back = Restore(&rt.want_lock, w);
     if g.mode == 2 {
       dwell(g.us, g.kind);
       rt.gate_dwelled.fetch_add(1, SeqCst);
@@ -198,6 +209,7 @@ impl Drop for GateHandle {
     // after its first one ended, i.e. after this drop began
     let need = rt.reads_done.load(SeqCst) + rt.per_reader.len() as u64 + 1;
     let t0 = Instant::now();
+    let mut spins = 0u32;
     loop {
       if rt.reads_done.load(SeqCst) >= need {
         rt.gate_raced.fetch_add(1, SeqCst);
@@ -207,8 +219,32 @@ impl Drop for GateHandle {
         rt.gate_timeouts.fetch_add(1, SeqCst);
         return;
       }
-      std::thread::yield_now();
+      relax(&mut spins);
     }
+  }
+}
+
+/// development aid: IOCX_E5_TRACE=1 prints the writers' progress with timestamps
+fn trace() -> bool {
+  static T: std::sync::OnceLock<bool> = std::sync::OnceLock::new();
+  *T.get_or_init(|| std::env::var("IOCX_E5_TRACE").is_ok())
+}
+
+/// Waiting for another running thread: spin (the wait is expected to last microseconds; a
+/// `yield_now` on a loaded machine costs a whole time slice), and only now and then yield.
+fn relax(spins: &mut u32) {
+  *spins += 1;
+  if *spins % 4096 == 0 {
+    std::thread::yield_now();
+  } else {
+    std::hint::spin_loop();
+  }
+}
+
+struct Restore<'a>(&'a AtomicU32, u32);
+impl Drop for Restore<'_> {
+  fn drop(&mut self) {
+    self.0.fetch_add(self.1, SeqCst);
   }
 }
 
@@ -367,6 +403,7 @@ fn run_once(case: &RCase) -> Result<CaseReport, Failure> {
     reads_done: AtomicU64::new(0),
     per_reader: (0..readers.len()).map(|_| AtomicU64::new(0)).collect(),
     stop: AtomicBool::new(false),
+    want_lock: AtomicU32::new(0),
     fail: Mutex::new(None),
     gate_raced: AtomicU64::new(0),
     gate_timeouts: AtomicU64::new(0),
@@ -397,7 +434,9 @@ fn run_once(case: &RCase) -> Result<CaseReport, Failure> {
       };
       let s = rt.tick();
       rt.s[id].store(s, SeqCst);
+      rt.want_lock.fetch_add(1, SeqCst);
       let r = catch_unwind(AssertUnwindSafe(|| cw.with(|c, _| creg_t(c, ty, tname.as_deref(), form, imp, fac))));
+      rt.want_lock.fetch_sub(1, SeqCst);
       // from now on whoever lets go of this registration on a registering thread runs the gate
       gate.armed.store(true, SeqCst);
       let c = rt.tick();
@@ -451,6 +490,11 @@ fn run_once(case: &RCase) -> Result<CaseReport, Failure> {
         start.wait();
         while !rt.stop.load(SeqCst) {
           i += 1;
+          if i % 256 == 0 && t_case.elapsed() > CASE_BOUND {
+            rt.abandoned.store(true, SeqCst);
+            rt.stop.store(true, SeqCst);
+            break;
+          }
           if every > 0 && i % every == 0 {
             let b = (i / every) as usize % 2;
             let (bt, _) = by_keys[b];
@@ -472,12 +516,14 @@ fn run_once(case: &RCase) -> Result<CaseReport, Failure> {
           } else {
             drop(k);
           }
-          for _ in 0..gap {
-            std::hint::spin_loop();
+          let mut idle = gap;
+          if rt.want_lock.load(SeqCst) > 0 {
+            // give the processor away at a point where this thread holds nothing, then idle
+            std::thread::yield_now();
+            idle += BACKOFF;
           }
-          if i % 256 == 0 && t_case.elapsed() > CASE_BOUND {
-            rt.abandoned.store(true, SeqCst);
-            rt.stop.store(true, SeqCst);
+          for _ in 0..idle {
+            std::hint::spin_loop();
           }
         }
         drop(held);
@@ -498,12 +544,14 @@ fn run_once(case: &RCase) -> Result<CaseReport, Failure> {
           }
           // pace: every reader has completed a resolution since the previous registration
           let t0 = Instant::now();
+          let mut spins = 0u32;
           loop {
             if rt.per_reader.iter().zip(seen.iter()).all(|(a, &b)| a.load(SeqCst) > b) || rt.stop.load(SeqCst) || t0.elapsed() > WAIT_BOUND {
               break;
             }
-            std::thread::yield_now();
+            relax(&mut spins);
           }
+          let t0 = t0.elapsed();
           for (a, b) in rt.per_reader.iter().zip(seen.iter_mut()) {
             *b = a.load(SeqCst);
           }
@@ -514,6 +562,9 @@ fn run_once(case: &RCase) -> Result<CaseReport, Failure> {
             break;
           }
           regs_done.fetch_add(1, SeqCst);
+          if trace() {
+            eprintln!("[{:?}] {who}: registration #{id} ({:?}) done, paced {:?}, reads so far {}", t_case.elapsed(), r.form, t0, rt.reads_done.load(SeqCst));
+          }
           if rt.reads_done.load(SeqCst) > before {
             // a reader resolution ended while this registration was in progress
             overlapped.fetch_add(1, SeqCst);
